@@ -117,6 +117,7 @@ class Capture:
         self.herds = []        # CalculateFeedAndMeat instances in construction order
         self.interp = []       # (title, Interpreter)
         self.rounds = {}       # 'first'/'second'/'third' -> returned tuples
+        self.current_round = None
         self._undo = []
 
     def install(self):
@@ -148,7 +149,11 @@ class Capture:
         def w_round(tag):
             def deco(orig):
                 def w(self_, *a, **k):
-                    out = orig(self_, *a, **k)
+                    cap.current_round = tag
+                    try:
+                        out = orig(self_, *a, **k)
+                    finally:
+                        cap.current_round = None
                     cap.rounds[tag] = dict(args=a, out=out)
                     return out
                 return w
@@ -160,7 +165,7 @@ class Capture:
         def w_herd(orig):
             def w(self_, *a, **k):
                 orig(self_, *a, **k)
-                cap.herds.append(dict(obj=self_, args=a, kwargs=k))
+                cap.herds.append(dict(obj=self_, args=a, kwargs=k, round=cap.current_round))
             return w
         wrap(ap.CalculateFeedAndMeat, "__init__", w_herd)
         # parameters.py imported the class by name
